@@ -98,6 +98,28 @@ pub fn corpus(seed: u64) -> Vec<(&'static str, Case)> {
     v.push(("field list", Case::new(vec![Cmd::field_list(b"t\0"), Cmd::ping()], vec![])));
     v.push(("select @@", Case::new(vec![Cmd::query(b"SELECT @@max_allowed_packet"), Cmd::query(b"select @@x")], vec![])));
     {
+        // the row writer is dropped without finish(): the last row and the terminator are written by
+        // the destructor; more commands are already pipelined behind it and the client ends with QUIT
+        let p = |nr: usize, bin: bool, ending: Option<QOp>| {
+            let mut q = rows_prog(2, nr, bin, true, QOp::DropRow);
+            q.ops.pop();
+            // last row deliberately left without end_row()
+            if matches!(q.ops.last(), Some(QOp::EndRow)) {
+                q.ops.pop();
+            }
+            if let Some(e) = ending {
+                q.ops.push(e);
+            }
+            q
+        };
+        v.push(("unfinished row writer dropped, pipelined, quit", Case::new(vec![Cmd::query(b"q1"), Cmd::query(b"q2"), Cmd::query(b"q3"), Cmd::quit()], vec![Script::Q(p(2, false, None)), Script::Q(p(1, false, Some(QOp::DropRow))), Script::Q(p(3, false, None))])));
+        v.push(("unfinished binary row writer dropped, then ping, quit", Case::new(vec![Cmd::prepare(b"s"), Cmd::execute(1, &[], false), Cmd::ping(), Cmd::quit()], vec![prep(0, 2), Script::Q(p(2, true, None))])));
+        let mut c = rows_prog(1, 1, false, false, QOp::FinishOne);
+        c.ops.push(QOp::CompleteOne(1, 2));
+        c.ops.push(QOp::DropResult);
+        v.push(("result writer dropped after chained sets, pipelined, quit", Case::new(vec![Cmd::query(b"q1"), Cmd::query(b"q2"), Cmd::quit()], vec![Script::Q(c.clone()), Script::Q(c)])));
+    }
+    {
         // a 100 KiB row, short transport writes
         let mut big = Vec::new();
         stream_fill(&mut big, seed, 1, 100 * 1024, false);
